@@ -26,7 +26,7 @@ RULE = ('programs x sequences of K<=2 control messages {rpc pause/play/kill/stat
 ASSUMPTIONS = ['the RabbitMQ transport itself is replaced by an in-process communicator that follows its observable protocol (pv/comm.py)',
                'an exception raised by a handler may reach the sender wrapped in RemoteException']
 REQUIRED = ['handlers_ran', 'twin_compared', 'replies_compared', 'announcements_checked', 'intent/pause', 'intent/play', 'intent/kill', 'intent/status',
-            'via/rpc', 'via/bcast', 'wrap/raw', 'wrap/loop', 'broadcast_faults', 'after_termination_checks', 'in_step_deliveries', 'idle_deliveries', 'idle_thread_runs']
+            'via/rpc', 'via/bcast', 'wrap/raw', 'wrap/loop', 'broadcast_faults', 'after_termination_checks', 'in_step_deliveries', 'idle_deliveries', 'idle_thread_runs', 'dropped_replies']
 BOUNDS = {'quick': '6 programs, K<=2 messages (K=2 sampled 1/3), all broadcast fault points', 'thorough': '14 programs + thread-mode delivery (400 runs)'}
 MSGS = [['rpc', 'pause', 'rp'], ['rpc', 'play', None], ['rpc', 'kill', 'rk'], ['rpc', 'status', None], ['bcast', 'pause', 'bp'], ['bcast', 'play', None],
         ['bcast', 'kill', 'bk']]
@@ -107,6 +107,12 @@ class CommRun(lifecycle.Run):
                        'kill': lambda: self.ctl.kill_process(proc.pid, text), 'status': lambda: self.ctl.get_status(proc.pid)}[intent]()
                 self.replies.append([entry['n'], intent, futures.unwrap_kiwi_future(fut)])
                 entry['ret'] = ['future']
+                if len(act) > 3 and act[3] == 'drop-reply':
+                    # the sender gives up on the answer right away (with an in-process communicator that cancels the very future the
+                    # process handed back): the request itself stands and must be carried out like the direct call
+                    res = getattr(self.base, 'last_rpc_result', None)
+                    if hasattr(res, 'cancel'):
+                        entry['reply_dropped'] = bool(res.cancel())
             else:
                 {'pause': lambda: self.ctl.pause_all(text), 'play': self.ctl.play_all, 'kill': lambda: self.ctl.kill_all(text)}[intent]()
                 entry['ret'] = ['value', None]
@@ -178,6 +184,8 @@ def gen_cases(tier, seed):
             if tier == 'quick':
                 k2 = k2[(seed + int(wrap)) % 3::3]
             plist += k2
+            # the sender drops the reply future as soon as the message is delivered
+            plist += [[{'at': s, 'act': list(m) + ['drop-reply']}] for s in range(0, n + 2) for m in MSGS if m[0] == 'rpc' and m[1] != 'status']
             for i, plan in enumerate(plist):
                 yield {'kind': 'twin', 'name': name, 'program': prog, 'plan': [dict(e, act=list(e['act'])) for e in plan], 'wrap': wrap,
                        'drain': True, 'listener': False}
@@ -400,7 +408,9 @@ def run_case(case):
             continue
         c = rpc_calls[hi]
         hi += 1
-        if act['kind'] == 'rpc':
+        if act['kind'] == 'rpc' and act.get('reply_dropped'):
+            obs['dropped_replies'] = obs.get('dropped_replies', 0) + 1
+        elif act['kind'] == 'rpc':
             desc = replies.get(act['n'], (None, None))[1]
             obs['replies_compared'] += 1
             if c['ret'][0] == 'value':
